@@ -86,7 +86,7 @@ CLIENT = ('send_request', 'show_message_request', 'apply_edit', 'get_configurati
 LNAME = {'analysis': 'L::Analysis', 'workspace_manager': 'L::WorkspaceManager', 'diagnostic_tokens': 'L::DiagnosticTokens',
          'workspace_diagnostic_token': 'L::WorkspaceDiagnosticToken', 'response_manager': 'L::ResponseManager', 'cancellations': 'L::Cancellations',
          'reload_lock': 'L::ReloadLock'}
-ALL_LOCKS = 'set![' + ', '.join(sorted(LNAME.values())) + ']'
+ALL_LOCKS = 'vx_join_all()'
 
 
 def join_locks(file, name):
@@ -96,18 +96,12 @@ def join_locks(file, name):
         f = host_fn(file, name)
     except Undecided:
         return ALL_LOCKS
-    spans = [(m.start(), m.start() + _close(f.text, m.end() - 1)) for m in re.finditer(r'tokio::spawn\(async move \{', f.text[f.body[0]:f.body[1]])]
     ls = set()
     for a in f.acq:
-        p = a['pos'] - f.body[0]
-        if any(s <= p < e for s, e in spans):
+        if a['in_spawn']:
             if INV.lock_of(a['recv']) not in LNAME: return ALL_LOCKS
             ls.add(LNAME[INV.lock_of(a['recv'])])
-    return ('set![' + ', '.join(sorted(ls)) + ']') if ls else ALL_LOCKS
-
-
-def _close(text, open_pos_rel_end):
-    return 0
+    return 'vx_join_analysis()' if ls == {'L::Analysis'} else ALL_LOCKS
 
 
 PRE = [('c28-drop-log', {'optional': True}), ('c28-opaque-macros', {'optional': True}), ('c28-cfg-not-test', {'optional': True}),
@@ -129,7 +123,7 @@ ANALYSIS_READ = r'let analysis = context\.analysis\(\)\.read\(\)\.await;'
 def fn(file, name, impl=None, requires=ENTRY, pre=(), held=None, **kw):
     src = {'file': file, 'kind': 'fn', 'name': name}
     if impl: src['impl'] = impl
-    h = {'long': LONG}
+    h = {'long': LONG, 'client': CLIENT, 'join': join_locks(file, name)}
     h.update(held or {})
     cfg = {'src': src, 'rules': list(pre) + PRE + [('c28-held', h)], 'attrs': ATTRS, 'requires': requires, 'ensures': RESTORED}
     cfg.update(kw)
@@ -174,7 +168,7 @@ def task(file, host, name, frm, to, head, requires, impl=None, pre=(), held=None
     """the body of a `tokio::spawn(async move { .. })` inside `host`, as a statement slice: a task of its own, `held == {}` at its start"""
     hsrc = {'file': file, 'kind': 'fn', 'name': host}
     if impl: hsrc['impl'] = impl
-    h = {'long': LONG, 'sig': False, 'fn': name}
+    h = {'long': LONG, 'client': CLIENT, 'join': join_locks(file, host), 'sig': False, 'fn': name}
     h.update(held or {})
     cfg = {'src': {'kind': 'slice', 'name': name, 'in': hsrc, 'from': frm, 'to': to, 'head': head, 'tail': kw.pop('tail', '')},
            'rules': list(pre) + PRE + [('c28-held', h)], 'attrs': ATTRS, 'requires': requires, 'ensures': RESTORED}
@@ -516,7 +510,7 @@ MUTANTS = [
     {'name': 'send-request-holds-mutex-while-waiting', 'item': 'ClientProxy::send_request',
      'pattern': r'self\.response_manager\s*\.lock\(\)\s*\.await\s*\.insert\(id\.clone\(\), sender\);',
      'repl': 'let mut vx_m = self.response_manager.lock().await; vx_m.insert(id.clone(), sender);',
-     'expect': r'C28\.(no-long-await-under-write-lock|order)\.send_request'},
+     'expect': r'C28\.(no-long-await-under-write-lock|no-client-round-trip-under-any-guard|order)\.send_request'},
     # the debounce sleep of the reindex task happens under analysis.write
     {'name': 'reindex-sleeps-under-write-lock', 'item': 'reindex_workspace::task',
      'pattern': r'cancel_token\.wait\(\)\.await;', 'repl': 'let mut vx_a = analysis.write().await;\n cancel_token.wait().await;\n drop(vx_a);',
@@ -526,6 +520,22 @@ MUTANTS = [
      'pattern': r'(context\s*\.file_diagnostic\(\)\s*\.cancel_workspace_diagnostic\(\)\s*\.await;)\s*(let workspace_manager = context\.workspace_manager\(\)\.write\(\)\.await;)',
      'repl': r'\2 let vx_e = context.analysis().read().await.get_emmyrc(); let vx_w2 = context.workspace_manager().read().await;',
      'expect': r'C28\.order\.on_did_save_text_document'},
+    # seeded C28_1: the push sweep keeps analysis.read while it asks the client for a progress token and waits for its per-file tasks
+    {'name': 'push-sweep-keeps-read-guard', 'item': 'push_workspace_diagnostic', 'pattern': r'drop\(read_analysis\);', 'repl': '',
+     'expect': r'C28\.(no-task-join-under-guard|no-client-round-trip-under-any-guard)\.push_workspace_diagnostic'},
+    {'name': 'pull-fast-keeps-read-guard', 'item': 'FileDiagnostic::pull_workspace_diagnostics_fast', 'pattern': r'drop\(analysis\);', 'repl': '',
+     'expect': r'C28\.(no-task-join-under-guard|no-client-round-trip-under-any-guard)\.pull_workspace_diagnostics_fast'},
+    # seeded C28_3: the question to the user is asked under analysis.read
+    {'name': 'rename-asks-user-under-read-guard', 'item': 'on_did_rename_files_handler', 'pattern': r'drop\(analysis\);(\s*if changes\.is_empty\(\))', 'repl': r'\1',
+     'expect': r'C28\.no-client-round-trip-under-any-guard\.on_did_rename_files_handler'},
+    {'name': 'config-change-fetches-under-workspace-read', 'item': 'on_did_change_configuration', 'pattern': r'let new_client_config = get_client_config',
+     'repl': 'let vx_w = context.workspace_manager().read().await;\n let new_client_config = get_client_config',
+     'expect': r'C28\.no-client-round-trip-under-any-guard\.on_did_change_configuration'},
+    # seeded C28_2: workspace_manager.read as the right operand of `||` while analysis.read is held
+    {'name': 'did-open-lazy-or-reverse-order', 'item': 'on_did_open_text_document',
+     'pattern': r'let old_file_id = analysis\.get_file_id\(&uri\);\s*if old_file_id\.is_some\(\) \{\s*true\s*\} else \{.*?is_workspace_file\(&uri\)\s*\}',
+     'repl': 'analysis.get_file_id(&uri).is_some() || context.workspace_manager().read().await.is_workspace_file(&uri)',
+     'expect': r'C28\.order\.on_did_open_text_document'},
     # a generated single-acquisition handler: the lock is taken twice
     {'name': 'hover-takes-analysis-twice', 'item': 'on_hover', 'pattern': r'(let analysis = context\.analysis\(\)\.read\(\)\.await;)',
      'repl': r'let vx_a0 = context.analysis().read().await; \1', 'expect': r'C28\.order\.on_hover'},
@@ -568,8 +578,9 @@ NOT_COVERED = [
     'std::sync::Mutex of PendingTask (workspace_manager.rs:339-366: three fns, each takes the one mutex, no await, no other lock: leaf) and every lock inside dependencies / the analysis crate',
     'BLOCKING calls inside async fns: file IO under analysis.write (collect_workspace_files, read_file_with_encoding in init_analysis / watched files / did_rename / apply_open_file_sync), '
     'load_configs_raw under workspace_manager.read (emmy_add_doc_tag.rs, emmy_disable_code.rs), std mpsc `rx.recv()` in the notify task (register_file_watch.rs:209, blocks a runtime worker)',
-    'long awaits under READ guards are not a clause: on_formatting_handler / on_range_formatting_handler hold analysis.read AND workspace_manager.read across the external '
-    'formatter (child process, user timeout): every didChange (main loop, needs both write locks) waits that long; the diagnostic tasks `tx.send().await` on a bounded channel under analysis.read',
+    'long awaits under READ guards other than client round trips and task joins: on_formatting_handler / on_range_formatting_handler hold analysis.read across the external '
+    'formatter (child process, bounded by the user timeout): every didChange (main loop) waits that long; the diagnostic tasks `tx.send().await` on a bounded channel (100) under analysis.read '
+    '(the receiver holds nothing and keeps receiving: proved by the join clause); JoinHandle awaits do not occur in the tree',
     'external_tool_format / external_tool_range_format (child process, no lock), DebounceToken::wait, time_cancel_token: inventory only (shims)',
     'ServerContext::new (that the three `analysis` fields alias one Arc) and the generic `ServerContext::task` body around `exec(..)` (only its two lock blocks are extracted)',
     'the main loop itself (server/*.rs): it takes no lock; `on_did_change_text_document` runs INLINE on it (notification_handler.rs:67), so whatever blocks that handler blocks every later message',
@@ -579,7 +590,11 @@ SAMPLES = [
     'every extracted fn: ensures held is restored [C28.held-restored]; entry points / spawned tasks: requires held == {}',
     'callee contracts: FileDiagnostic::add_diagnostic_task requires held.can_acquire(DiagnosticTokens); init_analysis requires can_acquire(Analysis) && no exclusive lock held; '
     'ClientProxy::send_request requires can_acquire(ResponseManager) && no exclusive lock held (it waits for the client)',
-    'long awaits (sleep, cancelled(), select!, mpsc recv/send, oneshot receiver, send_request and what calls it, DebounceToken::wait) require !held.exclusive() '
+    'waiting for the CLIENT (send_request, get_configuration / show_message_request / apply_edit, create_progress_task, the oneshot receiver, and the fns that do so first: '
+    'get_client_config*, init_analysis, apply_workspace_reload, pull_workspace_diagnostics_fast, push_workspace_diagnostic) requires that nothing but reload_lock is held, in ANY mode '
+    '[C28.no-client-round-trip-under-any-guard.<fn>]; channel recv (= waiting for spawned tasks) requires that no lock those tasks take is held in any mode '
+    '[C28.no-task-join-under-guard.<fn>] (the set is derived from the acquisitions inside the spawn bodies of the receiving fn: {analysis}; every lock when not derivable)',
+    'other long awaits (sleep, cancelled(), select!, mpsc send, DebounceToken::wait) require !held.exclusive() '
     '[C28.no-long-await-under-write-lock.<fn>]; exclusive = write guard of analysis / workspace_manager or any of the four bookkeeping mutexes (reload_lock excepted)',
     'FINDING on_did_change_watched_files: workspace_manager.read() at watched_file_handler.rs:50-53 while the guard of :10 (and analysis.write of :11) is alive [C28.order fails]',
     'FINDING seven request handlers take analysis.read() then workspace_manager.read() (opposite of the documented order and of watched_file_handler.rs:10-11) [C28.order fails]',
